@@ -111,4 +111,110 @@ theorem numTok_not_kw (p : Bytes) (h : numTok p = true) : p ≠ kTrue ∧ p ≠ 
   simp only [Bool.and_eq_true] at h
   constructor <;> (intro e; rw [e] at h; revert h; decide)
 
+/-! ### strict number syntax and names -/
+
+set_option maxRecDepth 100000 in
+theorem isDigit_props : ∀ c : UInt8, isDigit c = true → (c == 0x2E) = false ∧ (c == 0x2B || c == 0x2D) = false := by
+  apply byte_cases; decide
+
+theorem filter_dot_digits (d : Bytes) (h : d.all isDigit = true) : d.filter (· == 0x2E) = [] := by
+  rw [List.filter_eq_nil_iff]
+  intro a ha
+  simp only [List.all_eq_true] at h
+  simp [(isDigit_props a (h a ha)).1]
+
+theorem stripSign_digit (c : UInt8) (r : Bytes) (h : (c == 0x2B || c == 0x2D) = false) : stripSign (c :: r) = c :: r := by
+  simp [stripSign, h]
+
+/-- strict numbers are number-like tokens -/
+theorem isNumTok_numTok (p : Bytes) (h : isNumTok p = true) : numTok p = true := by
+  unfold isNumTok numBody at h
+  simp only [Bool.and_eq_true, Bool.not_eq_true', decide_eq_true_eq] at h
+  obtain ⟨⟨⟨hne, hall⟩, _⟩, _⟩ := h
+  have conv : ∀ b : Bytes, b.all (fun c => isDigit c || c == 0x2E) = true → b.all numChar = true := by
+    intro b hb
+    simp only [List.all_eq_true] at *
+    intro c hc
+    have := hb c hc
+    unfold numChar
+    simp only [Bool.or_eq_true] at this ⊢
+    rcases this with h1 | h1
+    · exact Or.inl (Or.inl (Or.inl h1))
+    · exact Or.inl (Or.inl (Or.inr h1))
+  cases p with
+  | nil => simp [stripSign] at hne
+  | cons c r =>
+    unfold numTok
+    simp only [List.isEmpty_cons, Bool.not_false, Bool.true_and, List.all_cons, Bool.and_eq_true]
+    by_cases hs : (c == 0x2B || c == 0x2D) = true
+    · have e : stripSign (c :: r) = r := by simp [stripSign, hs]
+      rw [e] at hall
+      refine ⟨?_, conv r hall⟩
+      unfold numChar
+      simp only [Bool.or_eq_true] at hs ⊢
+      rcases hs with h1 | h1
+      · exact Or.inr h1
+      · exact Or.inl (Or.inr h1)
+    · have e : stripSign (c :: r) = c :: r := stripSign_digit c r (by simpa using hs)
+      rw [e] at hall
+      have := conv (c :: r) hall
+      simpa using this
+
+theorem numBody_digits (d : Bytes) (hd : d.all isDigit = true) (hne : d ≠ []) : numBody d = true := by
+  unfold numBody
+  rw [filter_dot_digits d hd]
+  have h1 : d.all (fun c => isDigit c || c == 0x2E) = true := by
+    simp only [List.all_eq_true] at *
+    intro c hc; simp [hd c hc]
+  have h2 : d.any isDigit = true := by
+    cases d with
+    | nil => exact absurd rfl hne
+    | cons c r => simp only [List.all_cons, Bool.and_eq_true] at hd; simp [hd.1]
+  cases d with
+  | nil => exact absurd rfl hne
+  | cons c r => simp [h1, h2]
+
+theorem isNumTok_natBytes (n : Nat) : isNumTok (natBytes n) = true := by
+  have hd := natBytes_all_digit n
+  have hne := natBytes_ne_nil n
+  unfold isNumTok
+  cases e : natBytes n with
+  | nil => exact absurd e hne
+  | cons c r =>
+    rw [e] at hd
+    have hc : isDigit c = true := by simp only [List.all_cons, Bool.and_eq_true] at hd; exact hd.1
+    rw [stripSign_digit c r (isDigit_props c hc).2]
+    exact numBody_digits _ hd (by simp)
+
+theorem isNumTok_intBytes (i : Int) : isNumTok (intBytes i) = true := by
+  unfold intBytes
+  split
+  · unfold isNumTok
+    have : stripSign (0x2D :: natBytes i.natAbs) = natBytes i.natAbs := by simp [stripSign]
+    rw [this]
+    exact numBody_digits _ (natBytes_all_digit _) (natBytes_ne_nil _)
+  · exact isNumTok_natBytes _
+
+/-- a name without `#` is read as written -/
+theorem unescName_id (s : Bytes) (h : ∀ c ∈ s, c ≠ 0x23) : unescName s = s := by
+  induction s using unescName.induct with
+  | case1 c h1 h2 r2 hc a b ha hb ih =>
+    exact absurd (by simpa using hc) (h c (by simp))
+  | case2 c h1 h2 r2 hc hno ih =>
+    exact absurd (by simpa using hc) (h c (by simp))
+  | case3 c h1 h2 r2 hc ih =>
+    rw [unescName]; simp only [hc, Bool.false_eq_true, if_false]
+    rw [ih (fun x hx => h x (by simp [hx]))]
+  | case4 c r hshape ih =>
+    rw [unescName.eq_def]
+    cases r with
+    | nil => simp [unescName]
+    | cons a r' =>
+      cases r' with
+      | nil =>
+        have := ih (fun x hx => h x (by simp [hx]))
+        simp [this]
+      | cons b r'' => exact absurd rfl (hshape a b r'')
+  | case5 => rfl
+
 end C13L
